@@ -13,7 +13,7 @@
 (*   and ImageD11/sinograms/assemble_label.py harvest_masterfile 104-204.  *)
 (*                                                                         *)
 (* Numbers: every motor position / bin quantity is an integer numerator    *)
-(* over DEN = 24 (exact rational arithmetic; Div asserts exactness, so TLC  *)
+(* over DEN = 144 (exact rational arithmetic; Div asserts exactness, so TLC  *)
 (* itself proves that the dataset alphabet never needs rounding).  Counts  *)
 (* (nnz, frames, monitor readings) are plain integers.                     *)
 (*                                                                         *)
@@ -37,7 +37,8 @@
 (*   hist    history of <<op, ret, projected state>>                       *)
 (*                                                                         *)
 (* Actions = public operations: the constructor (Init: start forms fresh / *)
-(* imported = import_all() / sparse = harvest + import_from_sparse),       *)
+(* imported = import_all() / saved = + save, load / cached = + pk2d, pk4d  *)
+(* / sparse = harvest + import_from_sparse),                               *)
 (* UpdatePaths(force), SetName / SetAnalysisPath (user edits), ImportScans,*)
 (* ImportImagefiles, ImportMotors, GuessShape, GuessBins, ImportNnz,       *)
 (* ImportAll, Harvest, ImportFromSparse, HalfScan(y0), SetMonitor, Save,   *)
@@ -51,16 +52,21 @@
 (*   WellFormedAfter (action property) a successful import_all /            *)
 (*                   import_from_sparse / load leaves shapes that agree     *)
 (*   Partition       bins defined => every (omega_for_bins, dty) sample is *)
-(*                   in exactly one (obinedges, ybinedges) cell            *)
+(*                   in exactly one (obinedges, ybinedges) cell (with      *)
+(*                   BUG_STALEBINS a re-import can leave samples outside)  *)
 (*   HistTotal       sinohist sums to the number (weight) of samples       *)
 (*   HistMatchesEdges  sinohist()[i][j] = number of samples whose digitize *)
 (*                   cell is (i,j)   (so row i belongs to obincens[i], which*)
 (*                   is how run_iradon(sino, ds.obincens) uses it)         *)
 (*   CentresAreMotors regular grid, not padded: obincens / ybincens are the*)
 (*                   distinct motor positions                              *)
-(*   RoundTrip       load(save(x)) into a fresh object reproduces every    *)
+(*   RoundTripLoads / RoundTripPersist / RoundTripDerived / RoundTripOfb / *)
+(*   RoundTripYstep  load(save(x)) into a fresh object reproduces every    *)
 (*                   persisted attribute and every derived bin quantity    *)
 (*   LoadIdempotent  a second save/load generation changes nothing         *)
+(*   (RoundTripPinned = the part of these that the pinned code satisfies,  *)
+(*    RoundTripAll = all of them + CompareRoundTrip, with the round trip   *)
+(*    evaluated once: what the conformance / depth 3 configurations check) *)
 (*   SaveTotal       save() of an object whose arrays are rectangular      *)
 (*                   succeeds (also onto the file it was loaded from)      *)
 (*   SaveTarget      save() without a name writes the file the object was  *)
@@ -93,6 +99,12 @@
 (*   BUG_STALEBINS import_all / import_from_sparse keep bins of an earlier *)
 (*                 import (guessbins treats them as loaded)                *)
 (*   BUG_COMPARE   compare: attribute set of self twice, (s != o).all()    *)
+(* Experiments (Scans): R180 regular 3x3, M360 / M72 multi-turn (steps 90  *)
+(* and 72), E360 both 0 and 360, ZIG zig-zag + array / wrong-length dty +  *)
+(* a scan with corrupted omega, IRR 3 and 2 frames, RPT a repeated angle,  *)
+(* F2D one fscan2d scan of 2x3, BADS a counter group and a 2-D detector.   *)
+(* Ghosts (not compared): o.pad (ybincens padded), file.whole (the last    *)
+(* save into the file did not fail half way).                              *)
 (* Bounds: MaxDepth operations; datasets DsNames; import_scans /           *)
 (* import_imagefiles / import_nnz / harvest only while masterfile is the   *)
 (* bliss master; no scan with a single frame; f2scan not modelled.         *)
@@ -106,7 +118,7 @@ CONSTANTS MaxDepth, DsNames, StartForms, EmitMode,
 VARIABLES s, hist
 vars == <<s, hist>>
 
-DEN == 24
+DEN == 144
 NONE == "<None>"
 UNSET == "<unset>"
 
@@ -165,6 +177,8 @@ Scans(d) ==
                         Sc("3.1", "fscan", "3d", F3, <<1>>, TRUE, <<3>>, 0, 0) >>
     [] d = "M360" -> << Sc("1.1", "fscan", "3d", <<0, 90, 180, 270, 360, 450>>, <<0>>, TRUE, <<6>>, 0, 0),
                         Sc("2.1", "fscan", "3d", <<0, 90, 180, 270, 360, 450>>, <<2>>, TRUE, <<4, 2>>, 0, 0) >>
+    [] d = "M72"  -> << Sc("1.1", "fscan", "3d", <<0, 72, 144, 216, 288, 360, 432>>, <<0>>, TRUE, <<7>>, 0, 0),
+                        Sc("2.1", "fscan", "3d", <<0, 72, 144, 216, 288, 360, 432>>, <<1>>, TRUE, <<3, 4>>, 0, 0) >>
     [] d = "E360" -> << Sc("1.1", "fscan", "3d", <<0, 90, 180, 270, 360>>, <<0>>, TRUE, <<5>>, 0, 0),
                         Sc("2.1", "fscan", "3d", <<0, 90, 180, 270, 360>>, <<1>>, TRUE, <<5>>, 0, 0) >>
     [] d = "ZIG"  -> << Sc("1.1", "fscan", "3d", F3, <<0>>, TRUE, <<3>>, 0, 0),
@@ -180,7 +194,7 @@ Scans(d) ==
                         Sc("1.2", "fscan", "none", F3, <<0>>, TRUE, <<>>, 0, 0),
                         Sc("2.1", "fscan", "2d", F3, <<0>>, TRUE, <<>>, 0, 0),
                         Sc("3.1", "fscan", "3d", F3, <<1>>, TRUE, <<1, 2>>, 0, 0) >>
-AllDs == {"R180", "M360", "E360", "ZIG", "IRR", "RPT", "F2D", "BADS"}
+AllDs == {"R180", "M360", "M72", "E360", "ZIG", "IRR", "RPT", "F2D", "BADS"}
 \* monitor readings and segmentation pixel counts of scan number k (position in the master file)
 Mon(k, n) == [i \in 1..n |-> 100 + 10 * k + i]
 Nnz(k, n) == [i \in 1..n |-> 1 + ((i + k) % 3)]
@@ -195,7 +209,7 @@ DsTable == [d \in DsNames |->
                   mon |-> Mon(k, c.nfr), nnz |-> Nnz(k, c.nfr)]]]
 \* explicit scans= arguments explored per experiment (besides None)
 ScanArgs(d) == CASE d = "R180" -> {<<"3.1", "1.1">>, <<"9.1">>}
-                 [] d = "ZIG" -> {<<"2.1", "4.1">>}
+                 [] d = "ZIG" -> {<<"1.1", "2.1", "4.1">>}
                  [] OTHER -> {}
 
 \* ---- peak tables the environment may put at ds.pksfile: <<s1, sI, srI, scI, frame, glabel>> -------
@@ -596,7 +610,7 @@ StrKeys == {"dataroot", "analysisroot", "sample", "dset", "dsname", "datapath", 
 ListKeys == <<"scans", "imagefiles", "sparsefiles">>
 NDseq == <<"omega", "omega_for_bins", "dty", "nnz", "frames_per_file", "frames_per_scan", "monitor",
            "ybinedges", "ybincens", "obinedges", "obincens">>                      \* NDNAMES order (nlm is never set)
-EmptyDs == [kind |-> "ds", pad |-> FALSE, str |-> [k \in StrKeys |-> ABSENT], hasshape |-> FALSE, shape |-> <<0, 0>>, mref |-> NoneN,
+EmptyDs == [kind |-> "ds", pad |-> FALSE, whole |-> TRUE, str |-> [k \in StrKeys |-> ABSENT], hasshape |-> FALSE, shape |-> <<0, 0>>, mref |-> NoneN,
             lists |-> [k \in Range(ListKeys) |-> NoneL], nd |-> [k \in Range(NDseq) |-> UnsetA]]
 StrOf(o, k) == IF k \in Persisted12 THEN o.names[k]
                ELSE CASE k = "dataroot" -> o.dataroot [] k = "analysisroot" -> o.analysisroot [] k = "sample" -> o.sample
@@ -628,7 +642,8 @@ SaveNd(o, c, ks) ==
   ELSE LET k == Head(ks)   a == NdOf(o, k) IN
        IF a.k \in {"none", "unset"} THEN SaveNd(o, c, Tail(ks))
        ELSE LET sa == SaveArr(a)   old == c.nd[k] IN
-            IF a.k = "plist" /\ a.v = <<>> /\ old.k = "arr" /\ BUG_SAVESHAPE THEN [c |-> c, exc |-> "TypeError"]
+            \* an empty list never replaces what the file holds (the repair deletes only for storable data)
+            IF a.k = "plist" /\ a.v = <<>> /\ old.k = "arr" THEN [c |-> c, exc |-> "TypeError"]
             ELSE IF sa.exc # "ok" THEN [c |-> c, exc |-> sa.exc]
             ELSE IF old.k = "arr" /\ old.sh # sa.a.sh /\ BUG_SAVESHAPE THEN [c |-> c, exc |-> "TypeError"]
             ELSE IF old.k = "arr" /\ old.sh = sa.a.sh /\ old.dt # sa.a.dt /\ BUG_SAVESHAPE THEN [c |-> c, exc |-> "TypeError"]
@@ -646,7 +661,9 @@ SaveOp(disk, o, named) ==
                         !.mref = IF o.mref.k = "none" THEN old.mref ELSE o.mref]
       r2 == SaveLists(o, c1, ListKeys)
       r3 == IF r2.exc = "ok" THEN SaveNd(o, r2.c, NDseq) ELSE r2
-  IN [o |-> IF r3.exc = "ok" THEN [o EXCEPT !.dsfile = p] ELSE o, ret |-> r3.exc, disk |-> DPut(disk, p, r3.c)]
+      \* ghost: a failed save leaves a half written file
+  IN [o |-> IF r3.exc = "ok" THEN [o EXCEPT !.dsfile = p] ELSE o, ret |-> r3.exc,
+      disk |-> DPut(disk, p, [r3.c EXCEPT !.whole = @ /\ r3.exc = "ok"])]
 
 \* load(h5name) in place                                                                dataset.py:1045-1084
 SetStr(o, k, v) == IF k \in Persisted12 THEN [o EXCEPT !.names[k] = v]
@@ -835,6 +852,11 @@ Chain(d, disk, o, form) ==
   IF form = "fresh" THEN [o |-> o, disk |-> disk]
   ELSE LET r1 == ImportAllOp(d, disk, o, NoneL) IN
        IF form = "imported" THEN [o |-> r1.o, disk |-> disk]
+       ELSE IF form = "cached"                            \* import_all(); a peak table appears; ds.pk2d; ds.pk4d
+       THEN LET dk == DPut(disk, r1.o.names["pksfile"], [kind |-> "pks", ver |-> 1])
+                r2 == IF TabGuard(r1.o) THEN PkOp(dk, r1.o, "2d") ELSE r1
+                r3 == IF TabGuard(r2.o) THEN PkOp(dk, r2.o, "4d") ELSE r2
+            IN [o |-> r3.o, disk |-> dk]
        ELSE IF form = "saved"                                         \* import_all(); save(); load()
        THEN LET r2 == SaveOp(disk, r1.o, FALSE)
                 r3 == IF r2.ret = "ok" THEN LoadOp(r2.disk, r2.o, FALSE) ELSE R(r2.o, r2.ret)
@@ -849,8 +871,12 @@ Start(d, form) == LET c == Chain(d, <<>>, NewObj(d, NONE), form)
 Init == /\ \E d \in DsNames, form \in StartForms : s = Start(d, form)
         /\ hist = <<>>
 
+\* EmitMode: 0 keep the projection of every step in the history (small runs whose counterexample is replayed),
+\* 1 print every transition (the projection is formed when printing), 2 print complete behaviours (simulation),
+\* 3 neither (large invariant runs)
+KeepSt == EmitMode \in {0, 2}
 Commit(R1, op, ret) == /\ s' = R1
-                       /\ hist' = Append(hist, [op |-> op, ret |-> ret, st |-> Proj(R1)])
+                       /\ hist' = Append(hist, [op |-> op, ret |-> ret, st |-> IF KeepSt THEN Proj(R1) ELSE <<>>])
 En == Len(hist) < MaxDepth
 OnRaw == IsRaw(s.d, s.x.masterfile)
 ArgStr(a) == IF a = NoneL THEN <<"None">> ELSE a.v
@@ -964,6 +990,15 @@ RoundTripYstep == (WF(X) /\ Saveable(X) /\ RT(X).loaded) => RT(X).o.ystep.n = X.
 LoadIdempotent == (WF(X) /\ Saveable(X) /\ RT(X).loaded) =>
                      LET g1 == RT(X).o    g2 == RT(g1) IN
                      g2.loaded /\ PersistEqG(g2.o, g1, TRUE) /\ DerivedEq(g2.o, g1) /\ g2.o.ystep.n = g1.ystep.n
+\* the round trip laws with the round trip evaluated once (what the conformance configurations check)
+RTCommon(r) == /\ r.loaded
+               /\ PersistEqG([r.o EXCEPT !.ofb = X.ofb], X, TRUE) /\ DerivedEq(r.o, X)
+               /\ LET g2 == RT(r.o) IN g2.loaded /\ PersistEqG(g2.o, r.o, TRUE) /\ DerivedEq(g2.o, r.o) /\ g2.o.ystep.n = r.o.ystep.n
+RoundTripPinned == (WF(X) /\ Saveable(X)) => LET r == RT(X) IN RTCommon(r)
+RoundTripAll == (WF(X) /\ Saveable(X)) =>
+   LET r == RT(X) IN
+   /\ RTCommon(r) /\ SameArr(r.o.ofb, X.ofb) /\ r.o.ystep.n = X.ystep.n
+   /\ (X.analysispath # NONE => LET l == [r.o EXCEPT !.dsfile = X.dsfile] IN Cmp(l, X) = {"True"} /\ Cmp(X, l) = {"True"})
 SaveTotal == (WF(X) /\ Saveable(X) /\ \A i \in 1..Len(s.disk) : s.disk[i].p = SavePath(s.disk, X, FALSE) => s.disk[i].c.kind = "ds")
                 => SaveOp(s.disk, X, FALSE).ret = "ok"
 SaveTarget == DExists(s.disk, X.dsfile) => SavePath(s.disk, X, FALSE) = X.dsfile
@@ -1005,8 +1040,9 @@ PathsStep ==
 PathsKept == [][PathsStep]_vars
 \* a successful import / load leaves a well formed object (a failed operation may not: see the header)
 WFStep == (hist' # hist /\ LastRet = "ok") =>
-             /\ LastOp[1] \in {"import_all", "import_from_sparse", "load"} => WF(s'.x)
-             /\ LastOp[1] = "load_new" => WF(s'.y)
+             /\ LastOp[1] \in {"import_all", "import_from_sparse"} => WF(s'.x)
+             /\ (LastOp[1] = "load" /\ DGet(s.disk, s'.x.dsfile).whole) => WF(s'.x)
+             /\ (LastOp[1] = "load_new" /\ DGet(s.disk, s'.y.dsfile).whole) => WF(s'.y)
              /\ (LastOp[1] \in {"correct_bins_for_half_scan", "set_monitor", "update_paths", "save"} /\ WF(s.x)) => WF(s'.x)
 WellFormedAfter == [][WFStep]_vars
 MonitorStep == (hist' # hist /\ LastOp[1] = "set_monitor" /\ LastRet = "ok") =>
@@ -1017,9 +1053,11 @@ DiskStep == (hist' # hist /\ LastOp[1] \notin {"save", "harvest", "write_pks"}) 
 DiskFrame == [][DiskStep]_vars
 
 \* ---- emission for the replay harness ----------------------------------------------------------------------------
-Compact(h) == [i \in 1..Len(h) |-> IF i = Len(h) THEN h[i] ELSE [op |-> h[i].op]]
+Compact(h, last) == [i \in 1..Len(h) |-> IF i = Len(h) THEN [op |-> h[i].op, ret |-> h[i].ret, st |-> last]
+                                         ELSE [op |-> h[i].op]]
 Head0 == [d |-> s.d, form |-> s.form]
-EmitTransition == EmitMode # 1 \/ PrintT("@@" \o ToJson([start |-> [d |-> s'.d, form |-> s'.form], h |-> Compact(hist')]))
+EmitTransition == EmitMode # 1 \/ PrintT("@@" \o ToJson([start |-> [d |-> s'.d, form |-> s'.form],
+                                                         h |-> Compact(hist', Proj(s'))]))
 EmitFinal == EmitMode # 2 \/ Len(hist) < MaxDepth \/ PrintT("@@" \o ToJson([start |-> Head0, h |-> hist]))
 EmitTable == PrintT("@@N" \o ToString(DEN)) /\ PrintT("@@T" \o ToJson(DsTable)) /\ PrintT("@@P" \o ToJson([v \in PkVersions |-> Peaks(v)]))
 View == <<s, Len(hist)>>
